@@ -284,6 +284,14 @@ fn compare_ge(left: &dyn Array, right: &dyn Array) -> Result<BooleanArray> {
 
 /// SIMD-optimized add operation
 pub fn add_simd(left: &dyn Array, right: &dyn Array) -> Result<ArrayRef> {
+    if left.len() != right.len() {
+        return Err(QueryError::Execution(format!(
+            "Left length {} != right length {}",
+            left.len(),
+            right.len()
+        )));
+    }
+
     match left.data_type() {
         DataType::Int64 => {
             let left_arr = left
@@ -336,6 +344,14 @@ pub fn add_simd(left: &dyn Array, right: &dyn Array) -> Result<ArrayRef> {
 
 /// SIMD-optimized multiply operation
 pub fn multiply_simd(left: &dyn Array, right: &dyn Array) -> Result<ArrayRef> {
+    if left.len() != right.len() {
+        return Err(QueryError::Execution(format!(
+            "Left length {} != right length {}",
+            left.len(),
+            right.len()
+        )));
+    }
+
     match left.data_type() {
         DataType::Int64 => {
             let left_arr = left
